@@ -35,6 +35,8 @@ def applies(schema, type_condition_name, runtime):
 
 
 def collect(schema, fragments, selection_set, runtime, conditional=False, out=None, via=None, static=None):
+    # "own_conditional": all occurrences carry @skip/@include on the FIELD itself; a key that is conditional but not
+    # own_conditional owes it (also) to a directive on an enclosing inline fragment / fragment spread
     """response key -> {"nodes": [FieldNode...], "conditional": all occurrences are conditional,
     "fragments": names of the named fragments the key is (also) selected through,
     "statics": for each node the name of the type whose selection set it was written in (the field's STATIC parent
@@ -44,10 +46,11 @@ def collect(schema, fragments, selection_set, runtime, conditional=False, out=No
     for sel in selection_set.selections:
         if isinstance(sel, FieldNode):
             key = sel.alias.value if sel.alias else sel.name.value
-            e = out.setdefault(key, {"nodes": [], "conditional": True, "fragments": set(), "statics": []})
+            e = out.setdefault(key, {"nodes": [], "conditional": True, "own_conditional": True, "fragments": set(), "statics": []})
             e["nodes"].append(sel)
             e["statics"].append(static)
             e["conditional"] = e["conditional"] and (conditional or has_condition(sel))
+            e["own_conditional"] = e["own_conditional"] and has_condition(sel)
             if via:
                 e["fragments"].add(via)
         elif isinstance(sel, InlineFragmentNode):
